@@ -208,13 +208,53 @@ class DocRun(object):
                 raise Violation("write-breaks-syntax", "after %s: region %s" % (what, short(region)))
         return body
 
-    def do_set(self, pi, key, value, what):
+    def assign(self, rp, rkey, value, route):
+        """The documented ways to write a field: paragraph[key] = v, the same through
+        configured_view() (defaults; or auto_resolve_ambiguous_fields=False where the key is not
+        ambiguous), set_field_to_simple_value (single-line values) and set_field_from_raw_string
+        (the raw text after the colon, used exactly as given)."""
+        if route == "view":
+            rp.configured_view()[rkey] = value
+        elif route == "view-noresolve":
+            rp.configured_view(auto_resolve_ambiguous_fields=False)[rkey] = value
+        elif route == "simple" and "\n" not in value:
+            rp.set_field_to_simple_value(rkey, value)
+        elif route == "raw":
+            if "\n" not in value:
+                raw = " " + value.strip() + "\n"
+            else:
+                first, rest = value.split("\n", 1)
+                raw = " " + first.strip() + "\n" + rest + ("" if rest.endswith("\n") else "\n")
+            rp.set_field_from_raw_string(rkey, raw)
+        else:
+            self.view(rp)[rkey] = value
+        self.labels.add("route:" + (route or "item"))
+
+    def do_set_bad(self, pi, key, value, what, route=None):
+        """An assignment the library refuses (ValueError) must leave the document as it was - the
+        caller may catch the error and carry on.  If the library accepts the value instead, nothing
+        is said about the result and the history ends here (returns False)."""
+        p, rp = self.paras[pi], self.rparas[pi]
+        name, idx = key
+        rkey = name if idx is None else (name, idx)
+        try:
+            self.assign(rp, rkey, value, route)
+        except ValueError:
+            self.labels.add("refused-assignment")
+            self.compare("refused " + what)
+            return True
+        self.labels.add("bad-value-accepted-history-ends")
+        return False
+
+    def do_set(self, pi, key, value, what, route=None):
         """key = (name as spelled by the caller, occurrence index or None)."""
         p, rp = self.paras[pi], self.rparas[pi]
         name, idx = key
         occ = self.occ(p, name)
         rkey = name if idx is None else (name, idx)
-        self.view(rp)[rkey] = value
+        if route == "view-noresolve" and len(occ) > 1 and idx is None:
+            route = None       # the un-indexed key is ambiguous here: that view refuses it by design
+        self.assign(rp, rkey, value, route)
         if not occ:
             # new field: last in its paragraph, on lines of its own
             f = {"n": name, "c": "", "b": "\n", "open": False}
